@@ -28,3 +28,51 @@ claim("C17",
       "(also right in the way of the next roll-over) and gapped WAL numbers, plus a direct oracle on the I/O trace and listing.",
       "Symlink/file_type semantics are OS behaviour modelled as an entry kind.",
       "Coq proof (codec round trip) + checked model/code correspondence")
+claim("C04",
+      "Coq theorems (PropC04.v): at the specification level and, through the refinement, for the log: within an incarnation the next position never decreases, the last "
+      "positions reported by appends strictly increase and are fresh (>= the previous next position), and after truncate(..=p) the next position is >= p+1, for every history "
+      "of calls. The restart/crash halves are decided by the checked correspondence plus a high-water-mark oracle over restarts and crash images of histories in which "
+      "emptied queues stay idle while every file that mentioned them is garbage-collected.",
+      "Restart and crash halves are not yet theorems end to end (see evidence.stated_not_proved).",
+      "Coq proof (monotonicity invariant on the spec, transferred by refinement) + checked model/code correspondence + crash/restart oracle")
+claim("C06",
+      "Coq theorems (PropC06.v): the GC loop removes exactly a prefix of unreferenced files and never stops early; every call keeps the tracked files a contiguous run ending at the "
+      "file being written; after a successful truncate/delete_queue the oldest file is current, still referenced by a retained record, or not older than the file written when the call "
+      "began; disk_used is the size of that run; the directory's WAL files are exactly the tracked ones. Tied to the code by differential execution (listing, sizes, disk_used) and an oracle "
+      "that reads each append's first-write file off the I/O trace. One known finding (append starting exactly at a file end pins the full file).",
+      "",
+      "Coq proof (loop invariant + tracker invariant by induction over calls) + checked model/code correspondence")
+claim("C07",
+      "Coq theorem (PropC07.v): for every block size 7 < B <= 65542 and every checksum function, any list of entries of any sizes written by the record writer from cursor 0 is read back "
+      "identical and in order, then end of log, with no fuel exhaustion and byte counts adding up (all alignments arise as cases of the proof); entry and batch codecs round-trip. Tied to the code "
+      "by differential execution of the real RecordWriter/RecordReader on in-memory blocks (block-by-block hashes) with lengths aimed at every boundary case, and through files with restarts.",
+      "The file-level round trip (entries spanning WAL files) is not yet a theorem (FileStream.v pending); it is covered by the correspondence and the restart oracle.",
+      "Coq proof (stream invariant, induction over frames and entries) + checked model/code correspondence")
+claim("C10",
+      "Coq theorems (PropC10.v): for EVERY directory content (any names, kinds, lengths, bytes) and any fault plan, open terminates (the model's fuel is never exhausted; explicit bound; fuel "
+      "monotonicity), and any log it returns satisfies the representation invariant the accessors rely on. Panic freedom is outside the (total) model: it is checked on the real crate under "
+      "catch_unwind with a watchdog on damaged / truncated / removed / duplicated files, stray entries, random and CRC-valid forged blocks. One known finding (record at position u64::MAX, debug builds).",
+      "Panics are checked, not proved.",
+      "Coq proof (termination measure over bytes/blocks/files) + checked model/code correspondence + catch_unwind oracle")
+claim("C11",
+      "Coq theorems (PropC11.v): with a fault plan armed on read_dir / open / read, if the injected failure is reached then open returns an I/O error — never Ok, never Corruption, never a hang "
+      "(combined with C10's termination). Tied to the code by differential execution with the fault plans of the hooks for every call index recovery makes, with a deadline.",
+      "std's UnexpectedEof-as-short-file convention is part of the model (a short read is the short-file signal).",
+      "Coq proof (invariant 'not fired or error' threaded through recovery) + checked model/code correspondence")
+claim("C12",
+      "Coq theorems (PropC12.v): whatever decodes as an AppendRecords entry is exactly the serialization of the whole batch; replaying such an entry appends all its records or fails as a whole; "
+      "the entry written by append_records decodes back to the full batch. The stream-level half (a torn or damaged entry is never delivered in part) is decided by the checked correspondence "
+      "plus an oracle over crash cuts inside the batch's writes and single-frame damage of its frames.",
+      "Stream-level atomicity theorems pending (TornProofs/DamageProofs).",
+      "Coq proof (codec soundness + replay all-or-nothing) + checked model/code correspondence + crash/damage oracle")
+claim("C14",
+      "Coq theorems (PropC14.v): one call, any history, clean drop and open are independent of the policy and of the OnDelay clock: identical outcomes (positions, eviction counts, errors, "
+      "wal_bytes_written), same queues, same tracker/cursor, same directory once buffers are flushed, same result of open after a clean restart. Tied to the code by differential execution and a "
+      "metamorphic oracle running each history under seven policies.",
+      "", "Coq proof (erasure/equivalence relation preserved by every call) + checked model/code correspondence + metamorphic oracle")
+claim("C18",
+      "Coq theorems (PropC18.v): at the specification level and for the log, removing from any history the calls addressed to other queues changes neither q's content (range, last_position, "
+      "last_record) nor the logical outcomes of q's calls; replay of an entry touches only the queue it names. Restart/crash halves are decided by the checked correspondence plus a metamorphic "
+      "oracle (h versus h|q on the real crate, across restarts and GC).",
+      "Restart and crash halves rest on C01/C02 (not yet theorems end to end).",
+      "Coq proof (locality of the spec step, transferred by refinement) + checked model/code correspondence + metamorphic oracle")
